@@ -326,4 +326,15 @@ Run ==
                       IF l.ok THEN [ok |-> TRUE, diags |-> l.S.diags, tree |-> f.v, ver |-> v.v]
                       ELSE [ok |-> FALSE, e |-> l.e, diags |-> f.S.diags]
                  ELSE [ok |-> TRUE, diags |-> f.S.diags, tree |-> f.v, ver |-> v.v]
+(***************************************************************************)
+(* load_fragment: the text is wrapped as `fragment "" <text> /end MODULE`  *)
+(* and parsed as the content of a MODULE, lenient, as version 1.71; there  *)
+(* is no version look-ahead and nothing behind /end MODULE is looked at    *)
+(***************************************************************************)
+RunFragment ==
+    IF NTok = 0 THEN [ok |-> FALSE, e |-> [c |-> "UnexpectedEOF", line |-> 0], diags |-> <<>>]
+    ELSE LET S0 == [pos |-> 1, last |-> 0, diags |-> <<>>]
+             f == ParseElem(S0, [tag |-> "MODULE", line |-> Tok(1).line], TRUE, 171, 0)
+         IN IF ~f.ok THEN [ok |-> FALSE, e |-> f.e, diags |-> f.S.diags]
+            ELSE [ok |-> TRUE, diags |-> f.S.diags, tree |-> f.v, ver |-> 171]
 =============================================================================
